@@ -208,7 +208,9 @@ pub fn plane_dists(p: &[f64; 4]) -> [f64; 6] { let [x, y, z, w] = *p; [-z - w, z
 /// Exact visible part of a clip-space triangle as a polygon in the barycentric chart (u,v) = (l1,l2),
 /// by brute-force vertex enumeration over the nine bounding lines (not Sutherland-Hodgman).
 pub fn visible_polygon(t: &[V4; 3]) -> Vec<[f64; 2]> {
-    let v: [[f64; 4]; 3] = t.map(|p| p.map(|c| c as f64));
+    // (homogeneous coordinates: normalise the common magnitude, so that the tolerances below are relative)
+    let m = t.iter().flatten().fold(0.0f64, |m, x| m.max(x.abs() as f64)).max(1e-300);
+    let v: [[f64; 4]; 3] = t.map(|p| p.map(|c| c as f64 / m));
     let d: [[f64; 6]; 3] = [plane_dists(&v[0]), plane_dists(&v[1]), plane_dists(&v[2])];
     let mut g: Vec<[f64; 3]> = vec![[1.0, -1.0, -1.0], [0.0, 1.0, 0.0], [0.0, 0.0, 1.0]];
     for i in 0..6 { g.push([-d[0][i], -(d[1][i] - d[0][i]), -(d[2][i] - d[0][i])]); }
@@ -219,7 +221,7 @@ pub fn visible_polygon(t: &[V4; 3]) -> Vec<[f64; 2]> {
         if det.abs() < 1e-14 * scale * scale { continue; }
         let u = (-g[j][0] * g[k][2] + g[k][0] * g[j][2]) / det;
         let w = (-g[j][1] * g[k][0] + g[k][1] * g[j][0]) / det;
-        if g.iter().all(|c| c[0] + c[1] * u + c[2] * w >= -1e-9 * scale) { pts.push([u, w]); }
+        if g.iter().all(|c| c[0] + c[1] * u + c[2] * w >= -1e-11 * scale) { pts.push([u, w]); }
     }}
     if pts.len() < 3 { return vec![]; }
     let c = [pts.iter().map(|p| p[0]).sum::<f64>() / pts.len() as f64, pts.iter().map(|p| p[1]).sum::<f64>() / pts.len() as f64];
